@@ -203,12 +203,14 @@ func rawBufferRole(p *load.Program, pkg, typ, name string) string {
 // peerHelper interprets a call of a method of the package that has a body (a helper the role was split
 // into) on the caller's argument values; label variables of the helper start as the zero label.
 func peerHelper(pkg *packages.Package, w *wInterp, c *ast.CallExpr, mk func(*wInterp) func(string, *ast.CallExpr) (wv, bool)) (wv, bool) {
-	sel, ok := c.Fun.(*ast.SelectorExpr)
-	if !ok {
-		return nil, false
+	var fn *types.Func
+	switch t := c.Fun.(type) {
+	case *ast.SelectorExpr:
+		fn, _ = pkg.TypesInfo.Uses[t.Sel].(*types.Func)
+	case *ast.Ident:
+		fn, _ = pkg.TypesInfo.Uses[t].(*types.Func)
 	}
-	fn, ok := pkg.TypesInfo.Uses[sel.Sel].(*types.Func)
-	if !ok || fn.Pkg() != pkg.Types {
+	if fn == nil || fn.Pkg() != pkg.Types {
 		return nil, false
 	}
 	var fd *ast.FuncDecl
@@ -263,6 +265,19 @@ func peerHelper(pkg *packages.Package, w *wInterp, c *ast.CallExpr, mk func(*wIn
 	o := sub.stmts(fd.Body.List)
 	if sub.fail != "" {
 		return w.bad("%s: %s", fd.Name.Name, sub.fail), true
+	}
+	if fd.Type.Results != nil && len(fd.Type.Results.List) > 0 {
+		res := fd.Type.Results.List
+		if cx(res[len(res)-1].Type) != "error" {
+			// a helper that computes a value
+			if o.kind != "return" {
+				return w.bad("%s does not return", fd.Name.Name), true
+			}
+			if len(o.vals) == 1 {
+				return o.vals[0], true
+			}
+			return wtuple(o.vals), true
+		}
 	}
 	if o.kind == "return" && o.err {
 		return "error", true
